@@ -64,6 +64,94 @@ def plugin_written_keys(repo: Repo) -> Dict[str, List[Tuple[str, Function, ast.A
     return out
 
 
+def layering_rule(repo: Repo, rep, rule: str = "R17.2") -> None:
+    """Header layering of HttpxTransport._prepare_headers (fresh dict <- defaults <- per-request <- auth)."""
+    tmod = repo.module(TRANSPORT)
+    tcls = tmod.classes.get("HttpxTransport")
+    if tcls is None:
+        raise AnalysisError("anchor vanished: HttpxTransport")
+    prep = tcls.methods.get("_prepare_headers")
+    # ---------------------------------------------------------------- R17.2 layering
+    if prep is None:
+        raise AnalysisError("anchor vanished: HttpxTransport._prepare_headers")
+    cfg = CFG(prep.node)
+    sub0 = f"{tmod.relpath}:HttpxTransport._prepare_headers"
+    # the working dict
+    init = [n for n in own_nodes(prep.node) if isinstance(n, (ast.Assign, ast.AnnAssign)) and isinstance(
+        (n.targets[0] if isinstance(n, ast.Assign) else n.target), ast.Name)]
+    upd = [c for c in calls_in(prep.node) if isinstance(c.func, ast.Attribute) and c.func.attr == "update" and isinstance(c.func.value, ast.Name)]
+    work_vars = {c.func.value.id for c in upd}  # type: ignore[attr-defined]
+    rep.require(len(work_vars) == 1, f"R17.2: expected one working header dict in _prepare_headers, found {sorted(work_vars)}")
+    wv = next(iter(work_vars)) if work_vars else "prepared_headers"
+    defs = [n for n in init if (n.targets[0] if isinstance(n, ast.Assign) else n.target).id == wv]  # type: ignore[union-attr]
+    first = min(defs, key=lambda n: n.lineno) if defs else None
+    fresh = first is not None and first.value is not None and (
+        (isinstance(first.value, ast.Dict) and not first.value.keys) or
+        (isinstance(first.value, ast.Call) and dotted(first.value.func) == "dict"))
+    alias = [n for n in init if n.value is not None and any(
+        isinstance(x, ast.Attribute) and x.attr == "_default_headers" for x in ast.walk(n.value)) and not (
+        isinstance(n.value, ast.Call) and dotted(n.value.func) in ("dict",)) and not any(
+        isinstance(x, ast.Call) and isinstance(x.func, ast.Attribute) and x.func.attr == "copy" for x in ast.walk(n.value))
+        and not isinstance(n.value, ast.Dict)]
+    if fresh and not alias:
+        rep.ok(rule, sub0 + " fresh dict", f"`{wv}` starts as a new dict; the transport's default dict is never aliased", prep.loc(first))
+    else:
+        bad = alias[0] if alias else first
+        rep.violation(rule, sub0 + " fresh dict", f"{prep.fq}|aliases-defaults|{norm(bad) if bad is not None else ''}",
+                      f"the per-request header dict is not a fresh copy (`{norm(bad) if bad is not None else '?'}`): per-request headers and auth "
+                      "mutate the transport defaults and leak into later requests", prep.loc(bad or prep.node))
+
+    def node_of(call: ast.Call) -> Optional[int]:
+        for n in cfg.nodes:
+            if n.ast is not None and n.kind == "stmt" and not n.copy and any(c is call for c in calls_in(n.ast)):
+                return n.id
+        return None
+
+    d_upd = [c for c in upd if c.args and any(isinstance(x, ast.Attribute) and x.attr == "_default_headers" for x in ast.walk(c.args[0]))]
+    r_upd = [c for c in upd if c.args and any(const_str(x) == "headers" for x in ast.walk(c.args[0]))]
+    a_calls = [c for c in calls_in(prep.node) if isinstance(c.func, ast.Attribute) and c.func.attr == "authenticate_request"]
+    rep.require(bool(d_upd) and bool(r_upd) and bool(a_calls),
+                f"R17.2: layering anchors missing (defaults-update={len(d_upd)}, request-update={len(r_upd)}, auth-call={len(a_calls)})")
+    if d_upd and r_upd and a_calls:
+        nd, nr, na = node_of(d_upd[0]), node_of(r_upd[0]), node_of(a_calls[0])
+        order_ok = nd is not None and nr is not None and na is not None and \
+            nd not in cfg.reachable(nr) and nr not in cfg.reachable(na) and nd not in cfg.reachable(na) and \
+            nr in cfg.reachable(nd) and na in cfg.reachable(nr)
+        # both updates use plain dict.update with the source as the argument (later wins)
+        if order_ok:
+            rep.ok(rule, sub0 + " order", "defaults.update -> per-request.update -> auth: no path runs them in another order", prep.loc(d_upd[0]))
+        else:
+            rep.violation(rule, sub0 + " order", f"{prep.fq}|layering-order",
+                          "defaults / per-request headers / auth are not applied in that order on every path", prep.loc(d_upd[0]))
+        # the dict handed to the plugin derives from the working dict
+        arg = a_calls[0].args[0] if a_calls[0].args else None
+        src_ok = False
+        if isinstance(arg, ast.Name):
+            for n in own_nodes(prep.node):
+                if isinstance(n, (ast.Assign, ast.AnnAssign)):
+                    t = n.targets[0] if isinstance(n, ast.Assign) else n.target
+                    if isinstance(t, ast.Name) and t.id == arg.id and n.value is not None and isinstance(n.value, ast.Dict):
+                        for k, v in zip(n.value.keys, n.value.values):
+                            if const_str(k) == "headers" and any(isinstance(x, ast.Name) and x.id == wv for x in ast.walk(v)):
+                                src_ok = True
+        if src_ok:
+            rep.ok(rule, sub0 + " auth sees layered headers", f"the plugin receives {{'headers': {wv}.copy()}}", prep.loc(a_calls[0]))
+        else:
+            rep.violation(rule, sub0 + " auth sees layered headers", f"{prep.fq}|auth-input",
+                          "the dict handed to the auth plugin does not carry the layered headers under 'headers'", prep.loc(a_calls[0]))
+    # no other mutation of the working dict between layers than update / Authorization for bearer token
+    for n in own_nodes(prep.node):
+        if isinstance(n, ast.Assign) and isinstance(n.targets[0], ast.Name) and n.targets[0].id == wv and n is not first:
+            v = n.value
+            from_auth = isinstance(v, ast.Subscript) and const_str(v.slice) == "headers"
+            if from_auth:
+                rep.ok(rule, sub0 + f" reassignment `{norm(n)[:50]}`", "takes the plugin's result headers", prep.loc(n))
+            else:
+                rep.violation(rule, sub0 + " reassignment", f"{prep.fq}|reassign|{norm(n)}",
+                              f"`{norm(n)}` replaces the layered header dict (precedence of per-request over defaults is no longer given by update order)", prep.loc(n))
+
+
+
 def run(repo: Repo, rep: Report, tier: str) -> None:
     tmod = repo.module(TRANSPORT)
     tcls = tmod.classes.get("HttpxTransport")
@@ -147,84 +235,7 @@ def run(repo: Repo, rep: Report, tier: str) -> None:
                           f"{'forwards it only on some paths' if k in partial else 'reads it and drops it' if k in R else 'never reads that key from the authenticated arguments'}: the credential never reaches the wire",
                           m0.loc(n0))
 
-    # ---------------------------------------------------------------- R17.2 layering
-    if prep is None:
-        raise AnalysisError("anchor vanished: HttpxTransport._prepare_headers")
-    cfg = CFG(prep.node)
-    sub0 = f"{tmod.relpath}:HttpxTransport._prepare_headers"
-    # the working dict
-    init = [n for n in own_nodes(prep.node) if isinstance(n, (ast.Assign, ast.AnnAssign)) and isinstance(
-        (n.targets[0] if isinstance(n, ast.Assign) else n.target), ast.Name)]
-    upd = [c for c in calls_in(prep.node) if isinstance(c.func, ast.Attribute) and c.func.attr == "update" and isinstance(c.func.value, ast.Name)]
-    work_vars = {c.func.value.id for c in upd}  # type: ignore[attr-defined]
-    rep.require(len(work_vars) == 1, f"R17.2: expected one working header dict in _prepare_headers, found {sorted(work_vars)}")
-    wv = next(iter(work_vars)) if work_vars else "prepared_headers"
-    defs = [n for n in init if (n.targets[0] if isinstance(n, ast.Assign) else n.target).id == wv]  # type: ignore[union-attr]
-    first = min(defs, key=lambda n: n.lineno) if defs else None
-    fresh = first is not None and first.value is not None and (
-        (isinstance(first.value, ast.Dict) and not first.value.keys) or
-        (isinstance(first.value, ast.Call) and dotted(first.value.func) == "dict"))
-    alias = [n for n in init if n.value is not None and any(
-        isinstance(x, ast.Attribute) and x.attr == "_default_headers" for x in ast.walk(n.value)) and not (
-        isinstance(n.value, ast.Call) and dotted(n.value.func) in ("dict",)) and not any(
-        isinstance(x, ast.Call) and isinstance(x.func, ast.Attribute) and x.func.attr == "copy" for x in ast.walk(n.value))
-        and not isinstance(n.value, ast.Dict)]
-    if fresh and not alias:
-        rep.ok("R17.2", sub0 + " fresh dict", f"`{wv}` starts as a new dict; the transport's default dict is never aliased", prep.loc(first))
-    else:
-        bad = alias[0] if alias else first
-        rep.violation("R17.2", sub0 + " fresh dict", f"{prep.fq}|aliases-defaults|{norm(bad) if bad is not None else ''}",
-                      f"the per-request header dict is not a fresh copy (`{norm(bad) if bad is not None else '?'}`): per-request headers and auth "
-                      "mutate the transport defaults and leak into later requests", prep.loc(bad or prep.node))
-
-    def node_of(call: ast.Call) -> Optional[int]:
-        for n in cfg.nodes:
-            if n.ast is not None and n.kind == "stmt" and not n.copy and any(c is call for c in calls_in(n.ast)):
-                return n.id
-        return None
-
-    d_upd = [c for c in upd if c.args and any(isinstance(x, ast.Attribute) and x.attr == "_default_headers" for x in ast.walk(c.args[0]))]
-    r_upd = [c for c in upd if c.args and any(const_str(x) == "headers" for x in ast.walk(c.args[0]))]
-    a_calls = [c for c in calls_in(prep.node) if isinstance(c.func, ast.Attribute) and c.func.attr == "authenticate_request"]
-    rep.require(bool(d_upd) and bool(r_upd) and bool(a_calls),
-                f"R17.2: layering anchors missing (defaults-update={len(d_upd)}, request-update={len(r_upd)}, auth-call={len(a_calls)})")
-    if d_upd and r_upd and a_calls:
-        nd, nr, na = node_of(d_upd[0]), node_of(r_upd[0]), node_of(a_calls[0])
-        order_ok = nd is not None and nr is not None and na is not None and \
-            nd not in cfg.reachable(nr) and nr not in cfg.reachable(na) and nd not in cfg.reachable(na) and \
-            nr in cfg.reachable(nd) and na in cfg.reachable(nr)
-        # both updates use plain dict.update with the source as the argument (later wins)
-        if order_ok:
-            rep.ok("R17.2", sub0 + " order", "defaults.update -> per-request.update -> auth: no path runs them in another order", prep.loc(d_upd[0]))
-        else:
-            rep.violation("R17.2", sub0 + " order", f"{prep.fq}|layering-order",
-                          "defaults / per-request headers / auth are not applied in that order on every path", prep.loc(d_upd[0]))
-        # the dict handed to the plugin derives from the working dict
-        arg = a_calls[0].args[0] if a_calls[0].args else None
-        src_ok = False
-        if isinstance(arg, ast.Name):
-            for n in own_nodes(prep.node):
-                if isinstance(n, (ast.Assign, ast.AnnAssign)):
-                    t = n.targets[0] if isinstance(n, ast.Assign) else n.target
-                    if isinstance(t, ast.Name) and t.id == arg.id and n.value is not None and isinstance(n.value, ast.Dict):
-                        for k, v in zip(n.value.keys, n.value.values):
-                            if const_str(k) == "headers" and any(isinstance(x, ast.Name) and x.id == wv for x in ast.walk(v)):
-                                src_ok = True
-        if src_ok:
-            rep.ok("R17.2", sub0 + " auth sees layered headers", f"the plugin receives {{'headers': {wv}.copy()}}", prep.loc(a_calls[0]))
-        else:
-            rep.violation("R17.2", sub0 + " auth sees layered headers", f"{prep.fq}|auth-input",
-                          "the dict handed to the auth plugin does not carry the layered headers under 'headers'", prep.loc(a_calls[0]))
-    # no other mutation of the working dict between layers than update / Authorization for bearer token
-    for n in own_nodes(prep.node):
-        if isinstance(n, ast.Assign) and isinstance(n.targets[0], ast.Name) and n.targets[0].id == wv and n is not first:
-            v = n.value
-            from_auth = isinstance(v, ast.Subscript) and const_str(v.slice) == "headers"
-            if from_auth:
-                rep.ok("R17.2", sub0 + f" reassignment `{norm(n)[:50]}`", "takes the plugin's result headers", prep.loc(n))
-            else:
-                rep.violation("R17.2", sub0 + " reassignment", f"{prep.fq}|reassign|{norm(n)}",
-                              f"`{norm(n)}` replaces the layered header dict (precedence of per-request over defaults is no longer given by update order)", prep.loc(n))
+    layering_rule(repo, rep)
 
     # ---------------------------------------------------------------- R17.3 pass-through
     sub3 = f"{tmod.relpath}:HttpxTransport.request"
